@@ -1,4 +1,4 @@
-import GixModel.Lemmas.C20Modes
+import GixModel.Lemmas.C20M4
 /-
 C20 — Reference updates are crash-consistent.  PROPERTY THEOREMS ONLY.
 
@@ -319,6 +319,83 @@ theorem packed_old_or_new_modes (cd : Codec) (m : Mode) (c : Cfg) (s : Store) (t
 three modes) coincides in the default mode with the step list the theorems above are about -/
 theorem txnStepsM_default (c : Cfg) (s : Store) (txn : List Edit) : txnStepsM .d c s txn = txnSteps c s txn :=
   txnStepsM_d c s txn
+
+theorem txnIn_of_input {c : Cfg} {s : Store} {txn : List Edit} (h : TxnInput c s txn) : TxnIn c s txn :=
+  ⟨h.names_nodup, h.names_ref, h.no_df, h.loose_ref, h.chunk_ok, h.no_locks, h.no_packed_lock, h.not_dir⟩
+
+/-- `crash_consistent_modes` — clauses (1), (2), (3) for ALL three packed-refs modes
+(`DeletionsOnly`, `DeletionsAndNonSymbolicUpdates`, `…RemoveLooseSourceReference`), with hypotheses on
+the input only: after ANY prefix of `txnStepsM m c s txn`
+ (1) every edited ref reads as its old value or as the value the transaction gives it — also an
+     object update in mode `r`, whose value moves from the loose file into packed-refs: packed-refs is
+     rewritten before the loose source is unlinked, so the ref is never missing and never stale,
+ (2) every other ref reads as before,
+ (3) packed-refs is the complete old or the complete new file (old records minus deleted/updated ones
+     merged with the object updates in name order) and parses. -/
+theorem crash_consistent_modes (cd : Codec) (m : Mode) (c : Cfg) (s : Store) (txn : List Edit)
+    (h : TxnInput c s txn) (k : Nat) :
+    (∀ e ∈ txn,
+        readRef cd (applyAll ((txnStepsM m c s txn).take k) s.toFs) e.name = readRef cd s.toFs e.name ∨
+        readRef cd (applyAll ((txnStepsM m c s txn).take k) s.toFs) e.name = e.intended) ∧
+    (∀ q, isRefName q = true → q ∉ names txn →
+        readRef cd (applyAll ((txnStepsM m c s txn).take k) s.toFs) q = readRef cd s.toFs q) ∧
+    ((fileAt (applyAll ((txnStepsM m c s txn).take k) s.toFs) packedPath = fileAt s.toFs packedPath ∨
+        fileAt (applyAll ((txnStepsM m c s txn).take k) s.toFs) packedPath = newPackedFileM m s txn) ∧
+      ∀ bytes, fileAt (applyAll ((txnStepsM m c s txn).take k) s.toFs) packedPath = some bytes →
+        (cd.parsePacked bytes).isSome = true) := by
+  have hin := txnIn_of_input h
+  have hpkm := packed_old_or_new_modes cd m c s txn h.names_ref h.loose_ref h.chunk_ok h.no_packed_lock k
+  refine ⟨?_, ?_, hpkm.1, hpkm.2.1⟩
+  · intro e he
+    have hA := prefix_allowedM m c s txn hin e he k
+    have := allowed_readsM cd m s txn h.names_nodup e he _ _ hA
+    rw [readRef_eq, readRef_eq cd s.toFs, init_loose h.loose_ref (h.names_ref e he), init_packed h.loose_ref]
+    exact this
+  · intro q hq hnot
+    have hfile : fileAt (applyAll ((txnStepsM m c s txn).take k) s.toFs) q = fileAt s.toFs q := by
+      apply fileAt_applyAll_quiet
+      intro op ho
+      have ho' := List.mem_of_mem_take ho
+      rcases mem_steps_casesM m c s txn h.names_ref ho' with h1 | h1 | h1
+      · exact .inl h1
+      · right; intro ht
+        have := List.all_eq_true.mp h1 q ht
+        rw [not_isLogPath_refName hq] at this; cases this
+      · right; intro ht
+        rcases mem_core_casesM m c s txn h1 with rfl | hmm | ⟨e, he, hmm⟩
+        · simp [FsOp.touches] at ht; exact (refName_ne_packed hq).2 ht
+        · rcases packedCommitM_touches m c s txn op hmm q ht with e' | e'
+          · exact (refName_ne_packed hq).1 e'
+          · exact (refName_ne_packed hq).2 e'
+        · rcases edit_core_touchesM m c s _ e op hmm q ht with e' | e'
+          · exact hnot (by simp only [names, List.mem_map]; exact ⟨e, he, e'.symm⟩)
+          · exact refName_ne_lockPath hq _ e'
+    rw [readRef_eq, readRef_eq cd s.toFs, hfile]
+    rcases hpkm.1 with hp | hp
+    · rw [hp]
+    · rw [hp, init_packed h.loose_ref]
+      simp only [readOf, lookupM_keep cd s m txn q hnot]
+
+/-- the complete transaction, in any mode, gives every edited ref its intended value -/
+theorem commit_complete_modes (cd : Codec) (m : Mode) (c : Cfg) (s : Store) (txn : List Edit)
+    (h : TxnInput c s txn) :
+    ∀ e ∈ txn, readRef cd (applyAll (txnStepsM m c s txn) s.toFs) e.name = e.intended := by
+  intro e he
+  have hin := txnIn_of_input h
+  obtain ⟨h1, h2⟩ := full_runM m c s txn hin e he
+  rw [readRef_eq, h1, h2]
+  cases e with
+  | delete n => simp [readOf, finalNM, Edit.intended, Edit.name, lookupM_deleted cd s m txn h.names_nodup n he]
+  | update n new =>
+    cases new with
+    | sym t => simp [readOf, finalNM, cd.ref_rt, Edit.intended]
+    | id hx =>
+      by_cases hm : m = .r
+      · subst hm
+        simp [readOf, finalNM, Edit.intended, Edit.name,
+          lookupM_updated cd s .r txn h.names_nodup (by simp) n hx he]
+      · have : cd.parseRef hx = some (.id hx) := cd.ref_rt (.id hx)
+        simp [readOf, finalNM, hm, Edit.intended, this]
 
 /-! ### non-vacuity -/
 
